@@ -140,6 +140,39 @@ func boolGuardArg(c *ssa.Call) (ssa.Value, bool) {
 			return c.Call.Args[i], true
 		}
 	}
+	// … or where a bool field of one of its parameters (the receiver) is true:
+	// the callee's own load of that field stands for the value
+	cands := map[ssa.Value]bool{}
+	rets := expandedReturns(h)
+	for _, r := range rets {
+		for _, f := range r.Facts {
+			if u, ok := f.Cond.(*ssa.UnOp); ok && u.Op == token.MUL {
+				if fa, ok := u.X.(*ssa.FieldAddr); ok {
+					if _, isParam := fa.X.(*ssa.Parameter); isParam {
+						cands[u] = true
+					}
+				}
+			}
+		}
+	}
+	for q := range cands {
+		good := len(rets) >= 2
+		for _, r := range rets {
+			wantTrue := isNilConst(stripConv(r.Results[0]))
+			found := false
+			for _, f := range r.Facts {
+				if sameValue(f.Cond, q) && f.Truth == wantTrue {
+					found = true
+				}
+			}
+			if !found {
+				good = false
+			}
+		}
+		if good {
+			return q, true
+		}
+	}
 	return nil, false
 }
 
@@ -161,7 +194,7 @@ var ruleZone = &Rule{
 		ee := p.errors()
 		tz := p.reachesTZ()
 		out.Counts["functions_reaching_TZFromContext"] = len(tz)
-		out.Floors["functions_reaching_TZFromContext"] = 8
+		out.Floors["functions_reaching_TZFromContext"] = 3
 		zoned := map[string]bool{"TimeTZ": true, "TimestampTZ": true}
 		name := func(n *types.Named) string { return n.Obj().Name() }
 		// --- casts: methods of Executor with a types.DateTime parameter returning (*types.X, error)
@@ -354,7 +387,7 @@ func init() {
 	register(ruleZone)
 	addProp(&PropSpec{
 		ID:          "C17",
-		Rules:       []string{"R-ZONE", "R-HARD", "R-CMPMATRIX-DT", "R-PREDLOOP", "R-PAIR-C", "R-CTXZONE", "R-EMPTYPROD", "R-LAYOUT"},
+		Rules:       []string{"R-ZONE", "R-HARD", "R-CMPMATRIX-DT", "R-PREDLOOP", "R-PAIR-C", "R-CTXZONE", "R-EMPTYPROD", "R-LAYOUT", "R-WALLCLOCK"},
 		Explanation: "The time-zone rules as shapes of the 5×5 cast and comparison matrices: each cell is walked with the source type fixed (abstract interpretation); a cell that crosses zone-awareness must be guarded by the WithTZ option, fail with a non-suppressible error otherwise, and compute its result through a call that reaches the context's time zone; cells that do not cross never raise that error; both matrices are exhaustive over the five types.",
 		Decided: []string{"R-ZONE: guard, hard error and context-zone dependence of every crossing cast/compare cell; no tz error in non-crossing cells",
 			"R-HARD: the tz errors are built directly on ErrExecution", "R-CMPMATRIX-DT: comparable iff both time-only or both date-bearing (25 cells)", "R-ZONE also reports a cast or comparison switch that lacks an arm for one of the five types"},
@@ -487,7 +520,7 @@ var ruleCtxZone = &Rule{
 			}
 		}
 		out.Counts["zone_consulting_calls"] = n
-		out.Floors["zone_consulting_calls"] = 6
+		out.Floors["zone_consulting_calls"] = 2
 		return out
 	},
 }
